@@ -247,10 +247,18 @@ class DBFSStore(Store):
                 )
                 meta = None
             if meta is not None:
-                redir_key = json.loads(meta)["redirection_key"]
+                redir_meta = json.loads(meta)
+                redir_key = redir_meta["redirection_key"]
+                # A record written by a links-only commit has no copy of the data next to it.
+                has_copy = redir_meta.get("full_copy", False)
             else:
                 redir_key = None
-            if redir_key is None or redir_key != key:
+                has_copy = False
+            if (
+                redir_key is None
+                or redir_key != key
+                or (self._commit_type == CommitType.FULL and not has_copy)
+            ):
                 _logger.debug(
                     f"Path {dds_p} needs update (registered key {redir_key} != {key})"
                 )
@@ -277,7 +285,12 @@ class DBFSStore(Store):
                     _logger.debug(f"Skip copy for {obj_path} (links-only commit)")
                 _logger.debug(f"Linking new file {obj_path}")
                 try:
-                    meta = json.dumps({"redirection_key": key})
+                    meta = json.dumps(
+                        {
+                            "redirection_key": key,
+                            "full_copy": self._commit_type == CommitType.FULL,
+                        }
+                    )
                     self._put(redir_path, meta)
                 except Exception as e:
                     _logger.warning(
